@@ -59,7 +59,11 @@ class PhaseGen:
             tgt = r.choice(PERSIST_INT + TEMPS + TEMPS)
             loops = []
             if r.random() < 0.2:
-                hi = r.choice([["int", 2], ["int", 0], ["nary", "min", [g.int_expr(1), ["int", 3]]]])
+                # loop bounds mention persistent variables and constants only: generated code evaluates the
+                # bounds of a guarded looped assignment even when the guard is false (known finding
+                # guarded_loop_bound_evaluated), which the interpreter does not
+                pv = [v for v in PERSIST_INT if v in self.avail] or ["<dt>"]
+                hi = r.choice([["int", 2], ["int", 0], ["nary", "min", [["var", r.choice(pv)], ["int", 3]]]])
                 loops = [["i", ["int", 0], hi]]
                 g.loopvars = ["i"]
                 if tgt in self.avail and r.random() < 0.7:
@@ -343,6 +347,17 @@ def canon_obs(r):
             "final": [cv(v) for v in r["final"]]}
 
 
+def differ(a, b):
+    """the persistent state right after an escaping exception may depend on the order in which
+    independent statements ran (each backend picks its own; C11 states what holds): not compared"""
+    if a["end"][0] in ("user", "crash") or b["end"][0] in ("user", "crash"):
+        # two independent statements may both raise: which exception escapes depends on the order too
+        def exn(e):
+            return ["exception"] if e[0] in ("user", "crash") else e
+        a, b = dict(a, final=None, end=exn(a["end"])), dict(b, final=None, end=exn(b["end"]))
+    return a != b
+
+
 def oracle(case):
     code = make_code(case)
     obs = persistent_names(case)
@@ -355,7 +370,7 @@ def oracle(case):
     o = None
     if rg["end"][0] == "codegen_failed":
         o = {"kind": "codegen_failed", "detail": rg["end"]}
-    elif hdef and canon_obs(ri) != canon_obs(rg):
+    elif hdef and differ(canon_obs(ri), canon_obs(rg)):
         a, b = canon_obs(ri), canon_obs(rg)
         first = next((i for i, (x, y) in enumerate(zip(a["events"], b["events"])) if x != y), None)
         o = {"kind": "backends_differ", "first_differing_event": first,
@@ -425,11 +440,12 @@ def none_to_unset(r, gen):
     return out
 
 
-def case_term(case, ri, rg, obs, fuel):
+def case_term(case, ri, rg, obs, fuel, init_store=None):
     phases = "; ".join("(%s, %s, [%s])" % (lang.coq_str(nm), lang.coq_str(nxt),
                                            "; ".join(c02.bcall_to_coq(c) for c in prog))
                        for nm, nxt, prog in case["phases"])
-    store = dict({"<state>" + k: v for k, v in case["init"].items()}, **{"<t>": ["int", 0], "<dt>": ["int", 1]})
+    store = init_store if init_store is not None else \
+        dict({"<state>" + k: v for k, v in case["init"].items()}, **{"<t>": ["int", 0], "<dt>": ["int", 1]})
     tend = "(Some %d)" % case["limit"] if case["mode"] == "time" else "None"
     mx = "(Some %d%%nat)" % case["limit"] if case["mode"] == "steps" else "None"
     return "(Build_case1 [%s] %s %s %s %s %d%%nat [%s] %s %s)" % (
@@ -482,8 +498,30 @@ def shrink(case, kind):
     return case
 
 
+def guarded_loop_bound(case):
+    """a looped assignment inside an if_/else_ block whose loop bounds mention a per-step variable or call"""
+    for _, _, prog in case["phases"]:
+        depth = 0
+        for c in prog:
+            if c[0] in ("if", "else"):
+                depth += 1
+            elif c[0] in ("endif", "endelse"):
+                depth -= 1
+            elif c[0] == "stmt" and depth > 0 and c[1][0] == "assign" and c[1][4]:
+                for _, lo, hi in c[1][4]:
+                    txt = json.dumps([lo, hi])
+                    if '"call"' in txt or any(not v.startswith("<") for v in lang.expr_vars(lo) | lang.expr_vars(hi)):
+                        return True
+    return False
+
+
 def classify_known(o, case):
     """narrow matchers for the listed open findings (known_findings.json)"""
+    if o and o.get("kind") == "backends_differ" and guarded_loop_bound(case) \
+            and o["generated"]["end"][0] == "crash" and o["interpreter"]["end"][0] != "crash":
+        for f in common.known_findings(PID):
+            if f.get("class") == "guarded_loop_bound_evaluated":
+                return f
     return None
 
 
@@ -504,7 +542,7 @@ def main(tier):
         stats["ends"][ri["end"][0]] = stats["ends"].get(ri["end"][0], 0) + 1
         stats["phases"][str(len(case["phases"]))] = stats["phases"].get(str(len(case["phases"])), 0) + 1
         if o is not None:
-            key = o["kind"]
+            key = o["kind"] + (":known" if classify_known(o, case) else "")
             if key not in failing or len(json.dumps(case)) < len(json.dumps(failing[key][0])):
                 failing[key] = (case, o)
         use_i = ri if in_universe(ri) and not has_pow(case) else None
@@ -517,7 +555,11 @@ def main(tier):
             tidx.append(ci)
 
     for key, (case, o) in sorted(failing.items()):
-        c2 = shrink(case, key)
+        kf = classify_known(o, case)
+        if kf is not None:
+            rep.known_finding(kf["what_fails"])
+            continue
+        c2 = shrink(case, o["kind"])
         o2 = oracle(c2)[0] or o
         rep.violation({"what": "interpreter and generated Python class disagree (or generation fails) on a "
                                "builder program", "case": c2,
